@@ -445,6 +445,18 @@ class Append:
         return "%sappend(&'%s, %s);" % (ind, self.arr.src(), self.e.src())
 
 
+class FuncLitLet:
+    """let name := fn(params) -> ret { body };   (a function literal without captures)"""
+
+    def __init__(self, name, func):
+        self.name, self.func = name, func
+
+    def src(self, ind):
+        f = self.func
+        ps = ', '.join('%s: %s' % (n, t.name) for n, t in f.params)
+        return '%slet %s := fn(%s) -> %s {\n%s%s};' % (ind, self.name, ps, f.ret.name, block_src(f.body, ind + '    '), ind)
+
+
 class Raw:
     """Raw source line with no reference meaning (only for shapes whose semantics are irrelevant)."""
 
@@ -515,6 +527,17 @@ class RefVal:
         self.env, self.name, self.path = env, name, path
 
 
+class StrVal:
+    """Reference model of a string value: symbolic length (32 bit) and a padded list of byte terms."""
+
+    def __init__(self, n, bs):
+        self.n, self.bs = n, bs
+
+    @staticmethod
+    def lit(b):
+        return StrVal(z3.BitVecVal(len(b), 32), [z3.BitVecVal(c, 8) for c in b])
+
+
 class RefResult:
     def __init__(self):
         self.ret = None
@@ -535,6 +558,11 @@ def ite_val(c, a, b):
         return [ite_val(c, x, y) for x, y in zip(a, b)]
     if isinstance(a, OptVal):
         return OptVal(z3.If(c, a.has, b.has), ite_val(c, a.val, b.val))
+    if isinstance(a, StrVal):
+        m = max(len(a.bs), len(b.bs))
+        pa = a.bs + [z3.BitVecVal(0, 8)] * (m - len(a.bs))
+        pb = b.bs + [z3.BitVecVal(0, 8)] * (m - len(b.bs))
+        return StrVal(z3.If(c, a.n, b.n), [z3.If(c, x, y) for x, y in zip(pa, pb)])
     if isinstance(a, (DynArr, RefVal)):
         raise Unsupported('merge of distinct array/reference values')
     return z3.If(c, a, b)
@@ -587,6 +615,13 @@ class RefEval:
         self.block(f.body, env, ctx, guard)
         return ctx['ret']
 
+    def uncond(self, ctx, g):
+        """True when the statement executes on every run that is still alive (only death could skip it)."""
+        c = z3.And(g, z3.Not(ctx['returned']))
+        for lp in ctx['loops']:
+            c = z3.And(c, z3.Not(lp['brk']), z3.Not(lp['cont']))
+        return z3.is_true(z3.simplify(c))
+
     def live(self, ctx, g):
         c = z3.And(g, z3.Not(ctx['returned']), z3.Not(self.dead()))
         for lp in ctx['loops']:
@@ -610,7 +645,10 @@ class RefEval:
         elif isinstance(s, Assign):
             v = self.deref(self.eval(s.e, env, ctx, lv), lv)
             v = self.coerce(v, s.e.ty, s.place.ty)
-            self.write(s.place, env, ctx, lv, self.copy(v))
+            if isinstance(s.place, Var) and self.uncond(ctx, g) and not isinstance(env.lookup(s.place.name), RefVal):
+                env.find(s.place.name).set(s.place.name, self.copy(v))  # state after death is irrelevant
+            else:
+                self.write(s.place, env, ctx, lv, self.copy(v))
         elif isinstance(s, OpAssign):
             cur = self.eval(s.place, env, ctx, lv)
             r = self.eval(s.e, env, ctx, lv)
@@ -695,6 +733,8 @@ class RefEval:
             if not z3.is_true(z3.simplify(lv)):
                 raise Unsupported('append under a symbolic guard')
             arr.elems.append(self.copy(v))
+        elif isinstance(s, FuncLitLet):
+            env.declare('fn:' + s.name, s.func)
         elif isinstance(s, Raw):
             raise Unsupported('raw statement has no reference meaning')
         else:
@@ -733,6 +773,18 @@ class RefEval:
         self.res.panicked = z3.Or(self.res.panicked, z3.And(lv, z3.Not(inr)))
         return effw
 
+    def str_index(self, sv, idx, ity, lv):
+        w = ity.bits
+        wide = z3.SignExt(72 - w, idx) if ity.signed else z3.ZeroExt(72 - w, idx)
+        n = z3.ZeroExt(40, sv.n)
+        inr = z3.And(wide >= -n, wide < n)
+        eff = z3.If(wide < 0, wide + n, wide)
+        self.res.panicked = z3.Or(self.res.panicked, z3.And(lv, z3.Not(inr)))
+        r = z3.BitVecVal(0, 8)
+        for k in range(len(sv.bs) - 1, -1, -1):
+            r = z3.If(eff == z3.BitVecVal(k, 72), sv.bs[k], r)
+        return r
+
     def read_path(self, v, path, lv):
         for it in path:
             if isinstance(v, RefVal):
@@ -754,6 +806,8 @@ class RefEval:
 
     def write_path(self, v, path, lv, new):
         if not path:
+            if z3.is_true(z3.simplify(lv)):
+                return new
             return ite_val(lv, new, v)
         it = path[0]
         if it[0] == 'f':
@@ -877,10 +931,6 @@ class RefEval:
                 return v if tt.bits == 32 else (z3.Extract(tt.bits - 1, 0, v) if tt.bits < 32 else z3.SignExt(tt.bits - 32, v))
             raise Unsupported('cast %s -> %s' % (ft, tt))
         if isinstance(e, (Field, Index)):
-            if isinstance(e, Index) and isinstance(e.e, StrLit):
-                bs = [z3.BitVecVal(c, 8) for c in e.e.s.encode()]
-                idx = self.eval(e.idx, env, ctx, lv)
-                return self.read_path(bs, [('i', idx, e.idx.ty)], lv)
             base = e
             chain = []
             while isinstance(base, (Field, Index)):
@@ -894,17 +944,20 @@ class RefEval:
                     v = v[c.name]
                 else:
                     idx = self.eval(c.idx, env, ctx, lv)
-                    if isinstance(v, bytes):
-                        v = [z3.BitVecVal(x, 8) for x in v]
+                    if isinstance(v, StrVal):
+                        v = self.str_index(v, idx, c.idx.ty, lv)
+                        continue
                     try:
                         v = self.read_path(v, [('i', idx, c.idx.ty)], lv)
                     except _Empty:
                         v = default_val(c.ty)
             return v
         if isinstance(e, StrLit):
-            return e.s.encode()
+            return StrVal.lit(e.s.encode())
         if isinstance(e, Len):
             v = self.deref(self.eval(e.e, env, ctx, lv), lv)
+            if isinstance(v, StrVal):
+                return v.n
             n = len(v.elems) if isinstance(v, DynArr) else len(v)
             return z3.BitVecVal(n, 32)
         if isinstance(e, StructLit):
@@ -927,7 +980,10 @@ class RefEval:
                     raise Unsupported('reference to an element at a symbolic index')
             return RefVal(en, n, p)
         if isinstance(e, Call):
-            f = self.prog.func(e.fname)
+            try:
+                f = env.lookup('fn:' + e.fname)
+            except KeyError:
+                f = self.prog.func(e.fname)
             args = []
             for a, (pn, pt) in zip(e.args, f.params):
                 v = self.eval(a, env, ctx, lv)
